@@ -10,7 +10,7 @@ PROPS = {
     "C01": dict(runs=runs([("core", D), ("chunk", D), ("place", D), ("place", R), ("scan", D), ("chunk", R), ("hist", D)],
                           [("core", D), ("core", R), ("block", D), ("chunk", D), ("chunk", R), ("place", D), ("place", R), ("scan", D), ("scan", R), ("entries", D), ("hist", D)]),
                 assumptions=["memory accesses are observed through guard pages and debug assertions, not proved: a stray access that stays inside mapped memory and changes no result is invisible",
-                             "NEON loads are checked on the generated model only (no aarch64 here)"]),
+                             "NEON, big-endian and 32-bit paths are executed only under Miri (foreign-target stage), at the fidelity of its interpretation of the intrinsics"]),
     "C02": dict(runs=runs([("split", D), ("split", R), ("core", D)], [("split", D), ("split", R), ("core", D), ("block", D)])),
     "C03": dict(runs=runs([("core", D), ("core", R), ("block", D), ("chunk", D), ("place", D)])),
     "C04": dict(runs=runs([("core", D), ("core", R), ("block", D), ("entries", D)]),
@@ -25,7 +25,7 @@ PROPS = {
     "C12": dict(runs=runs([("scan", D), ("scan", "dev-sse42"), ("scan", "dev-avx2"), ("scan", "dev-nosimd"), ("scan", "dev-native"), ("swar", D), ("swar", "dev-native"), ("classes", D)],
                           [("scan", D), ("scan", R), ("scan", "dev-sse42"), ("scan", "dev-avx2"), ("scan", "dev-nosimd"), ("scan", "dev-native"), ("swar", D), ("swar", "dev-native"), ("classes", D)]), determining=True,
                 trusted=["lane semantics of the x86 intrinsics (validated against the real instructions by the scan family)",
-                         "lane semantics of the NEON intrinsics and tools/neon2lean.py (not executable here)"]),
+                         "lane semantics of the NEON intrinsics and tools/neon2lean.py, tools/swar2lean.py (validated under Miri for aarch64 / s390x / i686 by the foreign-target stage)"]),
     "C13": dict(runs=runs([("place", D), ("place", R), ("scan", D), ("scan", R), ("chunk", D), ("chunk", R), ("core", D), ("core", R)]),
                 assumptions=["weak-memory behaviour of the relaxed atomic cache is modelled as atomic steps on one location",
                              "'every switch combination compiles' is observed by building, not proved"]),
@@ -440,9 +440,114 @@ def special_miri(prop, tier, seed, th, chk):
         return [r]
 
 
+
+CROSS_TARGETS = {
+    # target: (what it adds, extra RUSTFLAGS)
+    "s390x-unknown-linux-gnu": ("big-endian 64-bit: SWAR with from_ne_bytes/to_ne_bytes the other way round", ""),
+    "i686-unknown-linux-gnu": ("32-bit words: SWAR with BLOCK_SIZE = 4", ""),
+    "aarch64-unknown-linux-gnu": ("the NEON kernels of src/simd/neon.rs, interpreted by Miri", "--cfg httparse_simd --cfg httparse_simd_neon_intrinsics"),
+}
+CROSS_PROPS = ("C01", "C05", "C06", "C08", "C12", "C13")
+
+
+def cross_stage(tier, seed, th, chk):
+    """The code paths that cannot run natively on this x86-64 machine — big-endian and 32-bit SWAR, and the
+    aarch64 NEON kernels — are EXECUTED under Miri for a foreign target (`cargo +nightly miri run --target …`,
+    sysroots built offline from rust-src on first use) on boundary scanner inputs and on whole messages, and
+    judged against the same model as everything else.  (The theorems about these paths are about the model
+    generated from the source; this stage is their correspondence run.)"""
+    import subprocess, os, time, json
+    from concurrent.futures import ThreadPoolExecutor
+    cdir = os.path.join(chk.BUILD, "cache", th, "cross-%s-%s" % (tier, seed))
+    res_path = os.path.join(cdir, "result.json")
+    with chk.Lock("cross"):
+        if os.path.exists(res_path):
+            out = json.load(open(res_path))
+            for r in out:
+                r["cached"] = True
+            return out
+        os.makedirs(cdir, exist_ok=True)
+        gen_bin, err = chk.build_harness("dev")
+        if gen_bin is None:
+            return [{"family": "cross", "variant": "miri-cross", "build_failed": True, "log": err, "fails": [], "stats": {}, "samples": {}, "n": 0, "wall": 0}]
+        # boundary pairs (in-class byte, stop byte) at word / block positions, every class
+        # (Miri interprets about 8 cases a second: the quick tier is sized for ~3 minutes, the three targets in parallel)
+        ins = [0x21, 0x7e, 0x80, 0x61, 0x20, 0x09] if tier == "quick" else [0x21, 0x7e, 0x80, 0xff, 0x61, 0x30, 0x20, 0x09]
+        stops = [0x00, 0x20, 0x7f, 0x0d, 0x3a, 0x80] if tier == "quick" else [0x00, 0x1f, 0x20, 0x7f, 0x0d, 0x0a, 0x3a, 0x09, 0x80, 0xff]
+        poss = [0, 3, 8, 15] if tier == "quick" else list(range(0, 34))
+        scan = []
+        for cls in (0, 1, 2):
+            for a in ins:
+                for b in stops:
+                    for p in poss:
+                        buf = [0x61] * (p + 24)
+                        buf[p], buf[p + 1] = a, b
+                        scan.append("scan %%d %d 0 %s" % (cls, bytes(buf).hex()))
+        core = subprocess.run([gen_bin, "gen", "core", "quick", str(seed)], capture_output=True, text=True, env=chk.ENV).stdout.splitlines()
+        core = sorted(set(l for l in core if l.split()[0] in ("req", "resp", "hdrs") and len(l) < 500))
+        step = max(1, len(core) // (60 if tier == "quick" else 3000))
+        msgs = core[::step]
+        # whole messages with long names / values / targets (several words and vector blocks): a control, DEL,
+        # obs-text or CR at every position
+        longs = [("req", "0 3", b"G /0123456789abcdefghijklmnopqrstuvwxyz0123456789abcdefghijklmnopqrstuvwxyz HTTP/1.1\r\nLong-Header-Name-For-Blocks: a-value-that-is-longer-than-thirty-two-bytes-for-avx2\r\n\r\n"),
+                 ("resp", "0 3", b"HTTP/1.1 204 No Content\r\nLong-Header-Name-For-Blocks: a-value-that-is-longer-than-thirty-two-bytes-for-avx2 \t \r\nB: c\r\n\r\n"),
+                 ("hdrs", "3", b"A:b\r\nLong-Header-Name-For-Blocks: a-value-that-is-longer-than-thirty-two-bytes-for-avx2\r\n\r\n")]
+        vals = [0x00, 0x80] if tier == "quick" else [0x00, 0x7f, 0x80, 0x0d, 0xff, 0x09, 0x20, 0x3a, 0x0a, 0x1f]
+        for kind, args, t in longs:
+            for pos in range(len(t)):
+                for v in vals:
+                    x = bytearray(t)
+                    x[pos] = v
+                    msgs.append("%s %s %s" % (kind, args, bytes(x).hex()))
+
+        def one(target):
+            t0 = time.time()
+            what, flags = CROSS_TARGETS[target]
+            be = 3 if "aarch64" in target else 0
+            cases = os.path.join(cdir, target + ".cases")
+            open(cases, "w").write("\n".join([l % be for l in scan] + msgs + ["info"]) + "\n")
+            env = dict(chk.ENV, RUSTFLAGS=("--cfg httparse_verif " + flags).strip(), MIRIFLAGS="-Zmiri-disable-isolation",
+                       CARGO_TARGET_DIR=os.path.join(chk.BUILD, "h-miri-" + target))
+            obs = os.path.join(cdir, target + ".obs")
+            try:
+                with open(cases) as i, open(obs, "w") as o:
+                    pr = subprocess.run(["cargo", "+nightly", "miri", "run", "-q", "--target", target, "--", "run"], cwd=chk.harness_dir(), stdin=i, stdout=o, stderr=subprocess.PIPE, text=True, env=env, timeout=7200)
+                rc, errtxt = pr.returncode, pr.stderr
+            except subprocess.TimeoutExpired:
+                rc, errtxt = -14, "timeout"
+            fails = []
+            got = sum(1 for _ in open(obs))
+            n = sum(1 for _ in open(cases))
+            variant = "miri:" + target.split("-")[0] + (":neon" if be == 3 else ":swar")
+            if rc != 0 or got < n:
+                cl = open(cases).read().splitlines()
+                culprit = cl[got] if got < len(cl) else "?"
+                msg = [l for l in errtxt.splitlines() if "error" in l.lower() or "Undefined Behavior" in l]
+                for p in ("C01", "C12", "C13"):
+                    fails.append("FAIL %s hard | undefined behaviour, a panic or a dead run on a foreign target (%s) under Miri | %s | %s" % (p, what, culprit, " ".join(msg[:3])[:500] or errtxt[-300:].replace("\n", " ")))
+            with open(obs) as i:
+                j = subprocess.run([chk.DRIVER, "judge"], stdin=i, capture_output=True, text=True, env=chk.ENV)
+            jp = os.path.join(cdir, target + ".judge.txt")
+            open(jp, "w").write(j.stdout)
+            f2, stats, samples = chk.parse_judge([jp])
+            info = [l for l in open(obs) if l.startswith("info ")]
+            if be == 3 and not any("provider=neon" in l for l in info):
+                fails.append("FAIL C12 model | the aarch64 build under Miri did not select the NEON provider | info | %s" % (info[:1],))
+            stats["cases.cross"] = n
+            stats["nontrivial.cross"] = got
+            return {"family": "cross(%s)" % what.split(":")[0], "variant": variant, "tier": tier, "seed": seed, "n": n, "fails": chk.cap_per_prop(fails + f2), "nfails": len(fails) + len(f2),
+                    "stats": stats, "samples": {"cross.info": (info[0].strip() if info else "")}, "wall": time.time() - t0, "cached": False}
+        with ThreadPoolExecutor(max_workers=3) as ex:
+            out = list(ex.map(one, sorted(CROSS_TARGETS)))
+        json.dump(out, open(res_path, "w"))
+        return out
+
+
 def special(prop, tier, seed, th, chk):
     import subprocess, json, os, time
     sc = scale_stage(tier, seed, th, chk) if (prop in SCALE_PROPS or prop in ("C01", "C20")) else []
+    if prop in CROSS_PROPS:
+        sc = sc + cross_stage(tier, seed, th, chk)
     if prop == "C01":
         return special_miri(prop, tier, seed, th, chk) + large_stage(tier, seed, th, chk) + sc
     if prop == "C17":
@@ -525,4 +630,4 @@ def special(prop, tier, seed, th, chk):
                         import shutil
                         shutil.rmtree(os.path.join(chk.BUILD, "h-" + name), ignore_errors=True)
         out.append({"family": "switch-combinations", "variant": "32", "n": k, "fails": fails2, "nfails": len(fails2), "stats": {"cases.combos": k, "nontrivial.combos": k}, "samples": {}, "wall": 0, "cached": False})
-    return out
+    return out + sc
